@@ -2,8 +2,11 @@ package harness
 
 import (
 	"context"
+	"flag"
 	"fmt"
 	"net"
+	"strconv"
+	"sync"
 	"syscall"
 	"testing"
 
@@ -54,6 +57,9 @@ type c20Conn struct {
 
 type c20Case struct {
 	Conns []c20Conn `json:"conns"`
+	// Burst: this many further connections are opened (half of them from an address that is refused at
+	// admission) and, with everything still open, all end at the same moment, from goroutines of their own
+	Burst int `json:"burst,omitempty"`
 }
 
 func genC20(t *rapid.T) c20Case {
@@ -71,6 +77,7 @@ func genC20(t *rapid.T) c20Case {
 		}
 		c.Conns = append(c.Conns, cc)
 	}
+	c.Burst = rapid.SampledFrom([]int{0, 0, 4, 8, 16, 24}).Draw(t, "burst")
 	return c
 }
 
@@ -244,6 +251,48 @@ func runC20(t failer, c c20Case) (abandoned, rejected int) {
 	for _, st := range states {
 		abandoned += len(st.last)
 	}
+	if c.Burst > 0 {
+		ev.Class("burst-of-simultaneous-closes")
+		var burst []*transport.Conn
+		for k := 0; k < c.Burst; k++ {
+			ip := net.IPv4(10, 2, 0, byte(k+1))
+			if k%2 == 1 {
+				ip = net.IPv4(10, 66, 1, byte(k+1))
+			}
+			bc, err := srv.connect(&net.TCPAddr{IP: ip, Port: 5000 + k})
+			if err != nil {
+				t.Fatalf("%v", err)
+			}
+			burst = append(burst, bc)
+		}
+		start := make(chan struct{})
+		var wg sync.WaitGroup
+		for _, bc := range burst {
+			wg.Add(1)
+			go func(bc *transport.Conn) {
+				defer wg.Done()
+				<-start
+				bc.FeedEOF()
+			}(bc)
+		}
+		for _, st := range states {
+			if !st.conn.Closed() {
+				wg.Add(1)
+				go func(cn *transport.Conn) {
+					defer wg.Done()
+					<-start
+					cn.FeedEOF()
+				}(st.conn)
+			}
+		}
+		close(start)
+		wg.Wait()
+		for _, bc := range burst {
+			if !bc.AwaitClosed(watchdog) {
+				t.Fatalf("HARNESS-BUG/INCONCLUSIVE: a connection of the burst was not closed after EOF")
+			}
+		}
+	}
 	// shutdown with whatever is still open: reads time out
 	srv.cancel()
 	srv.ln.Kick()
@@ -293,6 +342,86 @@ func TestC20Enum(t *testing.T) {
 			c := c20Case{Conns: []c20Conn{{Ops: []c20Op{{Kind: "start", Session: 1}, {Kind: k1, Session: 1}, {Kind: k2, Session: 2}}}, {Ops: []c20Op{{Kind: k2, Session: 1}, {Kind: k1, Session: 1}}}, {Refused: true}}}
 			a, r := runC20(t, c)
 			classifyC20(c, a, r)
+		}
+	}
+}
+
+// TestC20EnumBurst: many bursts of connections that all end at the same moment (half of them refused at
+// admission), on a transport without any harness-side lock (net.Pipe pairs behind a channel listener),
+// each burst on a server of its own that is shut down before the gauges are read.  An increment and a
+// decrement that are not one atomic step each show up here, if the scheduler obliges; the number of bursts
+// follows the case count of the tier.
+func TestC20EnumBurst(t *testing.T) {
+	n := 1500
+	if f := flag.Lookup("rapid.checks"); f != nil {
+		if k, err := strconv.Atoi(f.Value.String()); err == nil && k > 0 {
+			n = k
+		}
+	}
+	if n > 40000 {
+		n = 40000
+	}
+	for i := 0; i < n; i++ {
+		runC20Burst(t, 8+8*(i%3))
+	}
+	ev.Class("burst-stress-runs")
+}
+
+func runC20Burst(t failer, size int) {
+	ev.Eval()
+	cse := map[string]int{"burst": size}
+	base, err := readGauges(c20Gauges)
+	if err != nil {
+		t.Fatalf("HARNESS-BUG: %v", err)
+	}
+	h := tq.HandlerFunc(func(resp tq.Response, req tq.Request) { _, _ = resp.Reply(rawED{[]byte{0, 0, 0, 0, 0, 0}}) })
+	ln := newPipeListener()
+	srv := tq.NewServer(nopLogger{}, refusingSP{staticSP{secret: []byte("k"), handler: h}})
+	ctx, cancel := context.WithCancel(context.Background())
+	done := make(chan struct{})
+	go func() { _ = srv.Serve(ctx, ln); close(done) }()
+	var conns []net.Conn
+	for k := 0; k < size; k++ {
+		ip := net.IPv4(10, 2, 0, byte(k+1))
+		if k%2 == 1 {
+			ip = net.IPv4(10, 66, 1, byte(k+1))
+		}
+		c, err := ln.dial(ip, 5000+k)
+		if err != nil {
+			t.Fatalf("%v", err)
+		}
+		conns = append(conns, c)
+	}
+	start := make(chan struct{})
+	var wg sync.WaitGroup
+	for _, c := range conns {
+		wg.Add(1)
+		go func(c net.Conn) {
+			defer wg.Done()
+			<-start
+			c.Close()
+		}(c)
+	}
+	close(start)
+	wg.Wait()
+	cancel()
+	ln.kick <- struct{}{}
+	select {
+	case <-done:
+	case <-timeAfter(watchdog):
+		t.Fatalf("HARNESS-BUG/INCONCLUSIVE: Serve did not return after a burst")
+	}
+	now, err := readGauges(c20Gauges)
+	if err != nil {
+		t.Fatalf("HARNESS-BUG: %v", err)
+	}
+	for _, g := range c20Gauges {
+		if now[g] != base[g] {
+			sig := g + ":not-back-to-rest"
+			if now[g] < base[g] {
+				sig = g + ":below-rest"
+			}
+			violation(t, "C20", "gauges", "C20:"+sig, cse, "after a burst of %d connections that ended at the same moment and after Serve returned, %s is %v (resting value %v)", size, g, now[g], base[g])
 		}
 	}
 }
